@@ -46,12 +46,6 @@ Definition stmt_pipeline_depot_limits : Prop :=
   net_ok_b nw = true -> maint_listed_ok nw ->
   forall tours final, tours_are_paths nw tours -> pipeline_result nw tours final -> DepotLimitsOK final.
 
-(* F1 restated: without the restriction on the moved segment the invariant fails *)
-Definition stmt_depot_limits_unrestricted_refuted : Prop :=
-  exists nw0 s, net_ok_b nw0 = true /\ wreachable nw0 s /\
-    ~ (forall d, In d (map fst (nw_depots nw0)) -> d <> (let '(od, _, _) := nw_overflow nw0 in od) ->
-         (forall ty, In ty (type_ids nw0) -> spawned_same_type (s_usage s) d ty <= capacity_of nw0 d ty) /\
-         spawned_total nw0 (s_usage s) d <= total_capacity_of nw0 d).
 End D.
 
 (** ** after the repair of F1 ("fix: a start depot handed to the receiver must have room for it") the restriction on
